@@ -10,6 +10,7 @@ COQ_IMPORTS = ["From HTA.lib Require Import Dag.", "From HTA.model Require Impor
 SOURCES = cp.SOURCES
 TRANSLATE = [translate.gen_cprules]
 ASSUMPTIONS_HOST = "the depth-first traversal order is taken from the implementation's CallStackGraph.dfs_traverse; its well-formedness (wf_actions) is decided in Coq on every case"
+INPUT_CONTRACT = True        # the loaded frame is re-checked against the file (framework.input_contract)
 N_CASES = {"quick": 250, "thorough": 4000}
 RULE = ("generated causally consistent well-formed file sets (device work starts no earlier than its launch call; every synchronising call returns after the work it "
         "waits for; FIFO kernels on 1-3 streams; cudaDeviceSynchronize / cudaStreamSynchronize with Context / Stream Sync records; missing and orphan kernels; "
